@@ -539,7 +539,7 @@ class Process(object):
     def send_signal_child(self, pid, signum):
         """Send signal *signum* to child *pid*."""
         children = dict((child.pid, child)
-                        for child in get_children(self._worker))
+                        for child in get_children(self._worker, True))
         try:
             children[pid].send_signal(signum)
         except KeyError:
